@@ -2,8 +2,8 @@
 package main
 
 import (
-	"go/constant"
 	"fmt"
+	"go/constant"
 	"go/token"
 	"go/types"
 	"sort"
@@ -956,7 +956,9 @@ func c02UnitKey(c *Ctx, p *Prog) {
 				if keyText.Op == "slice" && len(keyText.Args) >= 3 {
 					bound = keyText.Args[2].String() // f[:eq]
 				}
-				for k, v := range o.Assign {
+				for _, k := range o.AtomKeys() {
+					v := o.Assign[k]
+					_ = v
 					s := o.AtomSyms[k]
 					if s.Op != "binop" || len(s.Args) != 2 {
 						continue
@@ -1091,7 +1093,7 @@ func c02KeyStart(c *Ctx, p *Prog, R string) {
 				}
 				// only outcomes all of whose conditions were answered from the first byte and the length
 				all := true
-				for k := range o.Assign {
+				for _, k := range o.AtomKeys() {
 					if _, ok := decide(o.AtomSyms[k]); !ok {
 						all = false
 					}
@@ -1178,7 +1180,9 @@ func c02Strip(c *Ctx, p *Prog) {
 				return 0, false
 			}
 			feasible := true
-			for k, v := range o.Assign {
+			for _, k := range o.AtomKeys() {
+				v := o.Assign[k]
+				_ = v
 				got, ok := symInt(o.AtomSyms[k], leaf)
 				if ok && (got != 0) != v {
 					feasible = false
